@@ -19,6 +19,7 @@ def run(ctx):
 
     # harnesses of the other properties at their quick alphabets, rebuilt under ASan + UBSan + libstdc++ debug mode
     single('c20_api', 'c20_api.cpp', [[]])
+    single('c20_atexit', 'c20_atexit.cpp', [[]])
     npp = 16 if thorough else 8
     single('c20_parse', 'c20_parse.cpp', [[p, npp] for p in range(npp)])
     dep12 = ''
@@ -101,7 +102,7 @@ def run(ctx):
             if l.startswith('STAT ') or l.startswith('SAMPLE '):
                 pass
         ctx.h.feed('\n'.join(l for l in out.splitlines() if l.startswith('STAT ')), label)
-        if label in ('c20_api', 'c20_parse') or label.startswith('c08neg_'):
+        if label in ('c20_api', 'c20_parse', 'c20_atexit') or label.startswith('c08neg_'):
             n0 = len(h.viols)
             ctx.h.feed('\n'.join(l for l in out.splitlines() if l.startswith('VIOL ')), label)
             for _, det in h.viols[n0:]:
